@@ -13,7 +13,7 @@ class Inconclusive(Exception):
     pass
 
 
-def run(P, fn, args, heap0=None, hooks=None, budget=300000, max_forks=16, single=True, forced=None, memory=None):
+def run(P, fn, args, heap0=None, hooks=None, budget=300000, max_forks=16, single=True, forced=None, memory=None, align=None, on_start=None):
     """Execute fn abstractly. hooks: {callee: f(events, args, interp) -> value}. Returns
     (return value, events, heap) when single=True (exactly one path must exist), else the list of such
     triples, one per explored path (a path forks where a branch depends on unknown data)."""
@@ -21,6 +21,10 @@ def run(P, fn, args, heap0=None, hooks=None, budget=300000, max_forks=16, single
     it.heap0 = dict(heap0 or {})
     it.with_heap = True
     it.forced = dict(forced or {})
+    if align is not None:
+        it.align = dict(align)  # numeric address of a buffer modulo its alignment class: {base: residue}
+    if on_start is not None:
+        it.on_path_start = on_start
     if memory is not None:
         it.memory = memory      # memory(base, offset, size) -> value of bytes the heap does not hold
     for name, h in (hooks or {}).items():
@@ -29,7 +33,10 @@ def run(P, fn, args, heap0=None, hooks=None, budget=300000, max_forks=16, single
         outs = it.run(args)
     except (Budget, Stop) as ex:
         raise Inconclusive("%s: %s" % (fn.name, ex))
-    res = [(ret, ev, heap) for (acc, ret, ev, heap) in outs]
+    res = []
+    for (acc, ret, ev, heap) in outs:
+        if not any(r_ == ret and e_ == ev and h_ == heap for r_, e_, h_ in res):
+            res.append((ret, ev, heap))     # paths that differ in nothing observable count once
     if single:
         if len(res) != 1:
             raise Inconclusive("%s: control flow depends on data the table does not determine (%d paths)" % (fn.name, len(res)))
